@@ -1609,6 +1609,7 @@ ALLOWED_IMPORTS = {
     "_modes": "cryptography.hazmat.primitives.ciphers.modes",
     "_mac_iso9797_3": "pyemv.mac.mac_iso9797_3", "_encrypt_tdes_cbc": "pyemv.tools.encrypt_tdes_cbc", "_xor": "pyemv.tools.xor",
     "_ac": "pyemv.ac", "_kd": "pyemv.kd", "_sm": "pyemv.sm", "_mac": "pyemv.mac", "_tools": "pyemv.tools",
+    "_logging": "logging", "logging": "logging", "_array": "array", "array": "array", "typing": "typing",
 }
 
 
@@ -1657,7 +1658,11 @@ def check_bindings(tree):
                 raise Binding(f"relative import `{ast.unparse(n)}`")
             for a in n.names:
                 imported[a.asname or a.name] = f"{n.module}.{a.name}"
+    import sys as _s
     for name, target in imported.items():
+        top = target.split(".")[0]
+        if top not in _s.stdlib_module_names and top not in ("cryptography", "pyemv"):
+            raise Binding(f"import of `{target}`: not a standard-library module, `cryptography` or the package itself")
         if (target == "pyemv" or target.startswith("pyemv.")) and target not in ALLOWED_IMPORTS.values() \
                 and target not in {"pyemv." + m for m in PACKAGE_MODULES}:
             raise Binding(f"import of `{target}`, which is not one of the package's modules / functions the translators know")
@@ -1681,6 +1686,17 @@ def check_bindings(tree):
             raise Binding(f"`{name}` is defined twice at module level")
         if name in imported or hasattr(builtins, name):
             raise Binding(f"module-level definition re-binds `{name}`")
+    # what runs while the module is imported besides the statements the translators read: default values and decorators of
+    # every definition (also of functions and methods whose bodies are never read) — they must be inert
+    def inert_default(d):
+        return d is None or _harmless_value(d) or (isinstance(d, (ast.Name, ast.Attribute)) and _pure_type_expr(d))
+    for n in ast.walk(tree):
+        if isinstance(n, (ast.FunctionDef, ast.AsyncFunctionDef, ast.Lambda)):
+            for d in list(n.args.defaults) + list(n.args.kw_defaults):
+                if not inert_default(d):
+                    raise Binding(f"default value `{ast.unparse(d)[:50]}` of `{getattr(n, 'name', '<lambda>')}` is evaluated when the module is imported")
+        if isinstance(n, (ast.FunctionDef, ast.AsyncFunctionDef)) and id(n) in set(map(id, tree.body)) and n.name.startswith("__") and n.name.endswith("__"):
+            raise Binding(f"module-level special function `{n.name}`")
     protected = set(imported) | set(top_defs) | {b for b in dir(builtins) if not b.startswith("__")}
     top_level = set(map(id, tree.body))
     for n in ast.walk(tree):
